@@ -10,12 +10,13 @@ refused.  Two constructions of the same text give equal ``obs(rank=True)``; the 
 back by ``saveToStream(tryMap=True)`` reload to the same grid contents.
 
 Part 2 (lattice maps, exhaustive): see ``c18_maps``.
+Part 3 (lattice-map text -> grid contents of a GridBlueprint, exhaustive): see ``c18_gridtext``.
 """
 import io
 import random
 
 from mcverif import core
-from mcverif.checks import c18_doc, c18_maps, c18_model
+from mcverif.checks import c18_doc, c18_gridtext, c18_maps, c18_model
 
 PROPERTY = "C18"
 LEVEL = "exploration"
@@ -138,6 +139,8 @@ def _save_roundtrip(case, cid, spec, text):
 def evaluate(case):
     if case.get("kind") == "maps":
         return c18_maps.eval_chunk(case)[0]
+    if case.get("kind") == "gridtext":
+        return c18_gridtext.eval_chunk(case)[0]
     return eval_doc(case)[0]
 
 
@@ -145,13 +148,17 @@ def _run_item(case):
     if case.get("kind") == "maps":
         vs, st = c18_maps.eval_chunk(case)
         return vs, {"maps": st, "cls": case["cls"]}
+    if case.get("kind") == "gridtext":
+        vs, st = c18_gridtext.eval_chunk(case)
+        return vs, {"maps": st, "cls": "gridtext_" + case["family"]}
     return eval_doc(case)
 
 
 def run(ctx):
     docs = c18_doc.enumerate_cases(1 if ctx.quick else 2)
     maps = c18_maps.cases(ctx.quick)
-    items = ctx.order(docs) + ctx.order(maps)
+    gtexts = c18_gridtext.cases(ctx.quick)
+    items = ctx.order(docs) + ctx.order(maps) + ctx.order(gtexts)
     res = core.pmap(MOD, "_run_item", items, chunksize=2)
     ndocs = nmaps = nontrivial = 0
     digests = set()
@@ -162,7 +169,7 @@ def run(ctx):
             nmaps += st["n"]
             nontrivial += st["nontrivial"]
             for k, v in st.items():
-                ctx.count("maps_%s_%s" % (info["cls"], k.replace("viol:c18/asciimap-", "viol-")), v)
+                ctx.count("maps_%s_%s" % (info["cls"], k.replace("viol:c18/asciimap-", "viol-").replace("viol:c18/gridtext-", "viol-")), v)
         else:
             ctx.count("docs_" + info["outcome"].split(":")[0])
             if info["outcome"] == "inapplicable":
@@ -178,7 +185,7 @@ def run(ctx):
             if info.get("digest"):
                 digests.add(info["digest"])
     ctx.count("docs_distinct_reactors", len(digests))
-    ctx.samples = [docs[0], docs[len(docs) // 3], docs[-1], maps[0], maps[-1]]
+    ctx.samples = [docs[0], docs[len(docs) // 3], docs[-1], maps[-1], gtexts[len(gtexts) // 2]]
     ctx.coverage.update(
         evaluations=ndocs + nmaps,
         distinct_nontrivial=nontrivial,
@@ -192,5 +199,6 @@ def run(ctx):
     ctx.assumptions += [
         "documents: <= %d deviations from two base documents over the dimensions of c18_doc (finite alternatives per dimension); theta-R-Z grids, component groups, 3-D shapes, mergeWith, inputHeightsConsideredHot=False and custom density on library materials are not generated" % (1 if ctx.quick else 2),
         "trusted: material library (default mass fractions, reference densities, expansion correlations), nuclide directory (weights, abundances), units.AVOGADROS_NUMBER; default settings (xs kernel MC2v3 element expansion rules)",
+        "lattice-map texts through GridBlueprint: every non-empty occupancy pattern of every Cartesian text map of nx x ny tokens (full core: nx*ny <= %d, quarter core <= %d), as full rectangle and with trailing placeholders trimmed, incl. all maps whose outer rows/columns hold only placeholders; hex third/full/tips-up patterns within 2-3 (third: 3-4) rings with and without an outer ring of placeholders; construct() of the grid for every pattern of <= 9 cells and every 16th otherwise" % ((16, 9) if ctx.quick else (20, 12)),
         "lattice maps: all non-empty subsets of the stated cell universes (hex: 2 rings, 3 rings restricted to |S|<=3 or >=17 in quick / all in thorough; third-core 3 rings + 3 out-of-domain cells, 4 rings, and in thorough 5 rings with |S|<=4 or >=18; Cartesian 3x3/4x4 patches incl. negative indices), distinct labels of 1/3 (and mixed) characters",
     ]
